@@ -540,7 +540,9 @@ impl FaitAccompli1Sampler<PartitionSampler> {
             // NOTE: exact integer arithmetic; `f64` rounds e.g. 1/49 * 49 down to 0 seats
             let samples = (u128::from(v.stake.inner()) * u128::from(k)
                 / u128::from(total_stake.inner())) as u64;
-            v.stake -= Stake::new(samples * total_stake.inner() / k);
+            v.stake -= Stake::new(
+                (u128::from(samples) * u128::from(total_stake.inner()) / u128::from(k)) as u64,
+            );
             required_samples.extend((0..samples).map(|_| v.id));
         }
         let all_zero = validators_truncated_stake
@@ -573,7 +575,9 @@ impl FaitAccompli1Sampler<IidQuorumSampler<StakeWeightedSampler>> {
             // NOTE: exact integer arithmetic; `f64` rounds e.g. 1/49 * 49 down to 0 seats
             let samples = (u128::from(v.stake.inner()) * u128::from(k)
                 / u128::from(total_stake.inner())) as u64;
-            v.stake -= Stake::new(samples * total_stake.inner() / k);
+            v.stake -= Stake::new(
+                (u128::from(samples) * u128::from(total_stake.inner()) / u128::from(k)) as u64,
+            );
             required_samples.extend((0..samples).map(|_| v.id));
         }
         let all_zero = validators_truncated_stake
